@@ -358,6 +358,101 @@ def relabel_req(ty, N):
     return req("relabel", TY[ty], 1, enc, enc2)
 
 
+GML_TOKEN = re.compile(r'"[^"]*"|\[|\]|[^\s\[\]]+')
+
+
+def gml_class(text, ty):
+    """input classes of gml texts on which the third-party parser (or the missing type check after it)
+    is known to let a non-ValueError escape; None for every other text"""
+    if text.count('"') % 2 == 1:
+        return "gml:unterminated-string"
+    toks = GML_TOKEN.findall(text)
+    stack = [set()]
+    path = []
+    i = 0
+    dup = directed = False
+    while i + 1 < len(toks):
+        key, val = toks[i], toks[i + 1]
+        if key == "]":
+            if len(stack) > 1:
+                stack.pop()
+                path.pop()
+            i += 1
+            continue
+        if key in stack[-1] and key in ("id", "source", "target"):
+            dup = True
+        if key == "directed" and val == "1" and path == ["graph"]:
+            directed = True
+        stack[-1].add(key)
+        if val == "[":
+            stack.append(set())
+            path.append(key)
+        i += 2
+    if dup:
+        return "gml:duplicate-key"
+    if ty in ("digraph", "dag") and not directed:
+        return "gml:undirected-as-directed"
+    return None
+
+
+JUNK3P = ["", "# c", "foo", "5 -> 9;", "5 -- 9;", "node [ id 7 ]", "edge [ source 0 target 99 ]", "directed 1",
+          "bipartite 2", "7 [bipartite=2];", "x [bipartite=0];", "]", "}", "graph [", "1 -- 1;"]
+
+
+def mutate3p(rng, text):
+    lines = text.split("\n")
+    k = rng.randrange(8)
+    if k == 0:
+        return text[:rng.randrange(len(text) + 1)], "truncate"
+    if k == 1 and text:
+        i = rng.randrange(len(text))
+        return text[:i] + rng.choice('[]{}";x9 -\n>=') + text[i + 1:], "replace-char"
+    if k == 2:
+        i = rng.randrange(len(lines))
+        return "\n".join(lines[:i] + lines[i + 1:]), "delete-line"
+    if k == 3:
+        i = rng.randrange(len(lines))
+        return "\n".join(lines[:i] + [lines[i]] + lines[i:]), "duplicate-line"
+    if k == 4:
+        i = rng.randrange(len(lines) + 1)
+        return "\n".join(lines[:i] + [rng.choice(JUNK3P)] + lines[i:]), "junk-line"
+    if k == 5 and text:
+        i = rng.randrange(len(text))
+        return text[:i] + text[i + 1:], "delete-char"
+    if k == 6 and len(lines) > 1:
+        i, j = rng.randrange(len(lines)), rng.randrange(len(lines))
+        lines[i], lines[j] = lines[j], lines[i]
+        return "\n".join(lines), "swap-lines"
+    toks = list(re.finditer(r"[0-9]+", text))
+    if toks:
+        m = rng.choice(toks)
+        return text[:m.start()] + rng.choice(["0", "99", "-1", "x", "1.5", ""]) + text[m.end():], "odd-token"
+    return text, "none"
+
+
+def kind3p(fmt, ty, text, kind):
+    if fmt == "gml":
+        return gml_class(text, ty) or "gml:" + kind
+    return "dot:" + kind
+
+
+CORPUS_3P = [
+    # (fmt, ty, text) — findings D33, D34, D35 first
+    ("gml", "digraph", "graph [ ]"), ("gml", "dag", "graph [\n  node [\n    id 0\n    label \"1\"\n  ]\n]\n"),
+    ("gml", "simple", "graph [\n  node [\n    id 0\n    id 0\n    label \"1\"\n  ]\n]\n"),
+    ("gml", "simple", "graph [\n  node [\n    id 0\n  ]\n  node [\n    id 1\n  ]\n  edge [\n    source 0\n    source 0\n    target 1\n  ]\n]\n"),
+    ("gml", "simple", "grap\" [\n]\n"), ("gml", "bipartite", "graph [\n  node [\n    id 0\n    label \"1\n    bipartite 0\n  ]\n]\n"),
+    ("gml", "simple", ""), ("gml", "simple", "garbage"), ("gml", "simple", "graph [ ]"), ("gml", "bipartite", "graph [ node [ id 0 ] ]"),
+    ("gml", "simple", "graph [ node [ id 0 ] node [ id 0 ] ]"), ("gml", "simple", "graph [ edge [ source 0 target 1 ] ]"),
+    ("gml", "simple", "graph [ node [ id 0 label \"\u00e9\" ] ]"), ("gml", "simple", "graph [ directed 1 node [ id 0 ] node [ id 1 ] edge [ source 1 target 0 ] ]"),
+    ("dot", "simple", ""), ("dot", "simple", "garbage"), ("dot", "simple", "graph {}"), ("dot", "digraph", "graph {}"),
+    ("dot", "simple", "digraph { 1 -> 2 }"), ("dot", "dag", "digraph { 2 -> 1 }"), ("dot", "dag", "digraph { 1 -> 2 }"),
+    ("dot", "bipartite", "graph { 1; 2 [bipartite=1]; }"), ("dot", "bipartite", "graph { 1 [bipartite=0]; 2 [bipartite=1]; 1 -- 2 }"),
+    ("dot", "bipartite", "graph { 1 [bipartite=0]; 2 [bipartite=0]; 1 -- 2 }"), ("dot", "simple", "strict graph { a; b; a -- b }"),
+    ("dot", "simple", "graph { 1 -- 1 }"), ("dot", "simple", "graph { 1 -- 2; 1 -- 2 }"), ("dot", "simple", "graph {"),
+]
+
+
 # ---------------------------------------------------------------- build
 def graph_nontrivial(g):
     return len(g["edges"]) > 0
@@ -369,10 +464,12 @@ def build(suite, info):
 
         def impl():
             t = write_text(make_graph(ty, g), ty, fmt, name)
-            return ok("1 " + " ".join(str(x) for x in enc_str(t)))
+            # the row-level writer of the model has ONE comment row: true of the text iff the name is one line
+            return ok(("0 " if "\n" in name and fmt != "matrix" else "1 ") + " ".join(str(x) for x in enc_str(t)))
         r = req("wgraph", FMT[fmt], TY[ty], enc_str(name), enc_g(ty, g))
         return Case(suite, r, impl, roundtrip_oracle(ty, fmt, g, name, info.get("via", "stringio")),
-                    cls="{}:{}:{}".format(fmt, ty, info.get("shape", "")), nontrivial=graph_nontrivial(g), info=info)
+                    cls=info.get("cls") or "{}:{}:{}".format(fmt, ty, info.get("shape", "")),
+                    nontrivial=graph_nontrivial(g), info=info)
     if suite == "rtrip":
         ty, fmt, g, name = info["ty"], info["fmt"], info["g"], info.get("name", "G")
 
@@ -446,7 +543,8 @@ def build(suite, info):
             except Exception:
                 pass
             return ok("-")
-        return Case(suite, "ack3p", impl, read_oracle(text, ty, fmt), cls=info.get("kind", fmt), nontrivial=len(text) > 0, info=info)
+        return Case(suite, "ack3p", impl, read_oracle(text, ty, fmt), cls=kind3p(fmt, ty, text, info.get("kind", "")),
+                    nontrivial=len(text) > 0, info=info)
     raise ValueError("unknown suite " + suite)
 
 
@@ -628,6 +726,11 @@ def cases(ctx):
         for n in (9, 10, 11, 12):
             infos.append(("rtrip3p", dict(ty=ty, fmt="dot", g={"n": n, "edges": [(i, i + 1) for i in range(1, n)]}, name="path")))
     infos.append(("rtrip3p", dict(ty="bipartite", fmt="dot", g={"l": 10, "r": 11, "edges": [(i, i) for i in range(1, 11)] + [(10, 11)]}, name="b")))
+    # ---- corpus: D36 (a graph name with a line break is written verbatim after 'c ')
+    for fmt, ty, name in (("kthlist", "simple", "two\nlines"), ("dimacs", "digraph", "a\np edge 5 0"),
+                          ("kthlist", "bipartite", "x\n1 : 2 0")):
+        g = {"l": 1, "r": 1, "edges": [(1, 1)]} if ty == "bipartite" else {"n": 2, "edges": [(1, 2)]}
+        infos.append(("write", dict(ty=ty, fmt=fmt, g=g, name=name, cls="multiline-name")))
     # ---- round trips: every type x every supported format x shapes
     reps = 3 if quick else 24
     vias = ["stringio", "stringio", "file", "file-autodetect", "from_file", "cli"]
@@ -707,5 +810,25 @@ def cases(ctx):
             if rng.random() < .8:
                 es = [e for e in es if e[0] != e[1]]
             infos.append(("relabel", dict(ty=ty, nodes=labels, edges=es, kind=style)))
+    # ---- gml / dot texts: corpus, then mutated written files (oracle only)
+    for fmt, ty, text in CORPUS_3P:
+        infos.append(("read3p", dict(fmt=fmt, ty=ty, text=text, kind="corpus")))
+    reps = 160 if quick else 3000
+    for _ in range(reps):
+        ty = rng.choice(list(TY))
+        fmt = rng.choice(["gml", "gml", "dot"])
+        g, _sh = gen_graph(rng, ty, None, False)
+        if ty == "bipartite":
+            g = {"l": min(g["l"], 3), "r": min(g["r"], 3), "edges": [e for e in g["edges"] if e[0] <= 3 and e[1] <= 3]}
+        else:
+            g = {"n": min(g["n"], 5), "edges": [e for e in g["edges"] if e[0] <= 5 and e[1] <= 5]}
+        text = write_text(make_graph(ty, g), ty, fmt, "G")
+        kinds = []
+        for _k in range(rng.choice([1, 1, 2])):
+            text, kd = mutate3p(rng, text)
+            kinds.append(kd)
+        if not all(ord(c) < 128 for c in text):
+            continue
+        infos.append(("read3p", dict(fmt=fmt, ty=ty, text=text, kind=kinds[0] if len(kinds) == 1 else "multi")))
     for suite, info in infos:
         yield build(suite, info)
